@@ -300,6 +300,10 @@ def outcome(cls, r):
     return t.__name__, 0, b""
 
 
+class CallerBufferModified(Exception):
+    """the library changed a caller-owned input buffer (recorded in the place of the exception class)"""
+
+
 def observe(cls, who, call, a, ip, receiver=True):
     """run call(receiver) on a fresh receiver of value a (static methods: no receiver, `self` stays the first operand);
     everything observable goes into the record"""
@@ -345,10 +349,16 @@ def run_int_job(job, classes, r):
                 body[0] |= 1
         raw = bytes(body) + bytes(lead) if bo == "little" else bytes(lead) + bytes(body)
         rec.update(by=list(raw), bo="big" if bo == "default" else bo)
-        mk = {"bytes": bytes, "bytearray": bytearray, "memoryview": memoryview}[cont]
+        mk = {"bytes": bytes, "bytearray": bytearray, "memoryview": lambda b: memoryview(bytearray(b))}[cont]
+
+        def conv(cls):
+            buf = mk(raw)                            # the caller's buffer: it must hold the same bytes after the call
+            v = cls.from_bytes(buf) if bo == "default" else cls.from_bytes(buf, bo)
+            if bytes(buf) != raw:
+                raise CallerBufferModified()
+            return v
         for name, cls in classes.items():
-            obs.append(observe(cls, name + "/" + cont, (lambda x: cls.from_bytes(mk(raw))) if bo == "default" else (lambda x: cls.from_bytes(mk(raw), bo)),
-                               0, False, receiver=False))
+            obs.append(observe(cls, name + "/" + cont, (lambda x, cls=cls: conv(cls)), 0, False, receiver=False))
         return rec
     vals = [shape_value(x, r) for x in sh]
     if flag == "div" and vals[1] != 0:               # make the first operand a multiple of the second
